@@ -70,6 +70,11 @@ void drv_c10_mpn(int tier, unsigned long seed, const char *extra) {
       fn_begin("mpn_com_n"); fn_in_limbs("a", a, n); fn_in_int("n", n); fn_mid(); gb_fill(r, n); mpn_com_n(r, a, n); fn_out_limbs("r", r, n); fn_end();
       fn_begin("mpn_popcount"); fn_in_limbs("a", a, n); fn_in_int("n", n); fn_mid(); fn_out_u64("ret", mpn_popcount(a, n)); fn_end();
       fn_begin("mpn_hamdist"); fn_in_limbs("a", a, n); fn_in_limbs("b", b, n); fn_in_int("n", n); fn_mid(); fn_out_u64("ret", mpn_hamdist(a, b, n)); fn_end();
+      /* extremes of the per-block counters: complementary operands (every bit differs), complementary but for one bit, equal operands, all ones */
+      { mp_ptr c = gb_get(3, n, place); int v; for (v = 0; v < 4; v++) { mp_size_t i; for (i = 0; i < n; i++) c[i] = v == 2 ? a[i] : ~a[i];
+          if (v == 1) c[rnd_below(n)] ^= (mp_limb_t)1 << rnd_below(64); if (v == 3) for (i = 0; i < n; i++) c[i] = ~(mp_limb_t)0;
+          fn_begin("mpn_hamdist"); fn_in_limbs("a", a, n); fn_in_limbs("b", c, n); fn_in_int("n", n); fn_mid(); fn_out_u64("ret", mpn_hamdist(a, c, n)); fn_end();
+          if (v == 3) { fn_begin("mpn_popcount"); fn_in_limbs("a", c, n); fn_in_int("n", n); fn_mid(); fn_out_u64("ret", mpn_popcount(c, n)); fn_end(); } } }
       { /* scans: a bit of the wanted kind must exist at or above the start (documented precondition) */
         mp_size_t start = rnd_below(n * 64); mp_ptr c = gb_get(3, n, place); MPN_COPY(c, a, n);
         c[n - 1] |= (mp_limb_t)1 << 63;
